@@ -495,11 +495,16 @@ func c12Lru(s c12Spec, res *lib.Result) {
 			return
 		}
 		var trace []string
-		for round := 0; round < 2; round++ { // Reset onto a second file: stale storage must not leak
+		prevSize := int64(-1)
+		for round := 0; round < 3; round++ { // Reset onto further files: stale storage must not leak
 			size := int64(r.Range(0, 5))*chunk + int64(r.Range(-1, 1))
 			if size < 0 {
 				size = 0
 			}
+			if round > 0 && r.Bool() {
+				size = prevSize // a different file of exactly the same size
+			}
+			prevSize = size
 			data := lib.RandomBytes(size, r.Uint64())
 			if err := lf.Reset(bytes.NewReader(data)); err != nil {
 				res.Violate("lrufile-reset-error", err.Error())
